@@ -90,8 +90,13 @@ class SGen:
         if not self.o.fragfilters or r.random() < 0.4:
             return e
         k = r.random()
-        if k < 0.45:
+        if k < 0.38:
             return F(e, self.pick(["lower", "string", "trim", "default"]))
+        if k < 0.45:
+            # the same neutral filters with explicit (rarely given) arguments
+            return self.pick([["filter", e, "trim", [C(" \n")], []], ["filter", e, "trim", [], [["chars", C(" ")]]],
+                              ["filter", e, "default", [C("-"), C(True)], []],
+                              ["filter", e, "center", [C(1)], []], ["filter", e, "indent", [C(0)], []]])
         if k < 0.66:
             return ["bin", "~", N(self.pv()), e]
         if k < 0.73:
